@@ -15,7 +15,7 @@ def _miss(v):
 DATA_CARRIERS = ["f64", "list_none", "list_nan", "tuple_nan", "f32", "int", "uint", "int16", "masked_nan", "masked_junk", "masked_mixed", "masked_int", "masked_fill", "series",
                  "series_shifted", "dask", "object"]
 TIME_CARRIERS = ["dt64ns", "dt64us", "dt64ms", "dt64s", "dt64m", "dt64h", "dt64D", "list_datetime", "list_timestamp", "dtindex", "series",
-                 "dtindex_utc", "series_utc", "epoch_list", "epoch_int", "epoch_float", "epoch_int32", "epoch_series", "epoch_index"]
+                 "dtindex_utc", "series_utc", "epoch_list", "epoch_int", "epoch_float", "epoch_int32", "epoch_series", "epoch_index", "list_datetime_ny"]
 SPAN_CARRIERS = ["list", "tuple"]
 
 
@@ -129,6 +129,11 @@ def time(ts, kind="dt64ns"):
         return base.astype(f"datetime64[{kind[4:]}]")
     if kind == "list_datetime":
         return pyd
+    if kind == "list_datetime_ny":
+        # timezone-aware python datetimes in a zone with daylight saving: the same instants, another wall clock
+        from zoneinfo import ZoneInfo
+        ny = ZoneInfo("America/New_York")
+        return [d.replace(tzinfo=dtm.timezone.utc).astimezone(ny) for d in pyd]
     import pandas as pd
     if kind == "list_timestamp":
         return [pd.Timestamp(d) for d in pyd]
